@@ -580,10 +580,19 @@ func (e *Enc) edgeCond(p, b *ssa.BasicBlock) string {
 // ---------- main encode ----------
 
 // Encode runs passes until key and havoc sets are stable.
-func (e *Enc) Encode() error {
+func (e *Enc) Encode() (err error) {
 	if len(e.fn.Blocks) == 0 {
 		return fmt.Errorf("%s: no body", e.key)
 	}
+	defer func() {
+		if r := recover(); r != nil {
+			if ee, ok := r.(encErr); ok {
+				err = fmt.Errorf("%s: %s", e.key, string(ee))
+				return
+			}
+			panic(r)
+		}
+	}()
 	e.analyzeCFG()
 	for pass := 0; pass < 8; pass++ {
 		e.pass = pass
